@@ -3,6 +3,7 @@ import argparse
 import hashlib
 import json
 import os
+import re
 import shutil
 import sys
 import time
@@ -75,6 +76,25 @@ def run_check(prop, tier, seed):
             known_hits.append((k, rec))
             continue
         violations.append(rec)
+
+    # deviation actions used by accepted traces: a listed known finding, else a violation
+    for name, (vpath, vline) in sorted(core.DEVIATIONS.items()):
+        k = next((k for k in known if k.get('status') == 'known' and k.get('property') == prop and
+                  'deviation_re' in k.get('match', {}) and re.search(k['match']['deviation_re'], name)), None)
+        try:
+            with open(vpath) as f:
+                first = json.loads(f.read().split('\n')[vline - 1])
+        except Exception:
+            continue
+        if first.get('sc') not in by_sc:
+            continue
+        rec = dict(property=prop, scenario=by_sc[first['sc']], conn=first.get('conn', 0), findings=[],
+                   rejected_line=0, rejected_event=first, rule_groups=[], attributed_to=[prop], deviation=name,
+                   trace=[], worker_notes=[])
+        if k:
+            known_hits.append((k, rec))
+        else:
+            violations.append(rec)
 
     # 3. report
     vdir = os.path.join(core.OUT, 'violations', prop)
